@@ -283,6 +283,16 @@ def saturation_postconditions(ctx, inst, positive):
         ctx.oblige("post:exponent saturates only on i32 overflow", ok, inst, inst.get("span"),
                    "a saturating return whose path does not imply |accumulator| >= %d" % lim)
     ctx.oblige("post:saturating exits found", n >= 1, inst, inst.get("span"), "%d exits return the saturation constant" % n)
+    # sign consistency: a positive exponent field never yields a negative exponent and vice versa (swapped saturation constants, wrong accumulate direction)
+    oks, why = bool(ctx.exit_states), ""
+    for st, rv in ctx.exit_states:
+        if not (isinstance(rv, int) and rv in G.base):
+            oks, why = False, "result not tracked"
+            continue
+        R = st.get_iv(rv)
+        if (positive and R[0] < 0) or ((not positive) and R[1] > 0):
+            oks, why = False, "an exit returns %s for a %s exponent field" % (R, "positive" if positive else "negative")
+    ctx.oblige("post:exponent sign follows the sign of the exponent field", oks, inst, inst.get("span"), why)
 
 
 def bit_classes(p, w):
